@@ -108,15 +108,15 @@ Proof. exact fixed_witness2. Qed.
 
 (** The facts regenerated from internal/routing/table.go on this run are the
     ones the model follows: strict "longer than best so far" comparison from
-    -1 on the head of each bucket (">=" would be equivalent: by
+    -1 on the head of each bucket ([lpm_compare_ok] also accepts ">=", which is equivalent: by
     C08_independent_of_map_order no two buckets of equal length contain the
     same address), ascending metric sort, and AddRoute / RemoveRoute keyed by
     the canonical network (net.ParseCIDR of the printed form). *)
 Theorem C08_source_facts :
-  (gen_lpm_compare = src_lpm_compare \/ gen_lpm_compare = src_lpm_compare_ge) /\
+  lpm_compare_ok gen_lpm_compare = true /\
   gen_lpm_initial_best = src_lpm_initial_best /\
   gen_lpm_candidate_is_bucket_head = true /\ gen_cidr_sort_less = src_sort_less /\
   gen_addroute_keys_by_canonical_network = true /\ gen_canonical_is_parsecidr_of_printed = true /\
   gen_removeroute_uses_canonical_key = true.
-Proof. split; [left; reflexivity|]. repeat split; reflexivity. Qed.
+Proof. repeat split; reflexivity. Qed.
 Print Assumptions C08_source_facts.
